@@ -1,3 +1,4 @@
+import Neutrino.Props.C04
 import Neutrino.Props.C07
 import Neutrino.Props.C08
 import Neutrino.Props.C11
